@@ -55,7 +55,7 @@ ALPHA = ["a", "B", " ", "é", "ß", "ǆ", "\U0001f600", ",", "%"]
 LONG = ["Ground control to Major Tom.", "  padded \t\n", "a,b,,c", "one  two\tthree\nfour", "<p>x &amp; y</p>", "%41+b c&d=e/é"]
 INTS = [0, 1, -1, 2, -2, 7, -7, 10, 2**31, 2**53 + 1, 10**20, -(10**20)]
 FLOATS = [0.0, -0.0, 0.1, 0.5, 1.5, 2.5, -2.5, 1e16, 1e-7]
-ELEMS: list[Any] = [1, 2, "a", "B", None, True, {"k": 1}, {"k": 2}, {"j": 1}, {"k": None}, {"k": 0}, {"k": True}, {"k": False}]
+ELEMS: list[Any] = [1, 2, "a", "B", None, True, {"k": 1}, {"k": 2}, {"j": 1}, {"k": None}, {"k": 0}, {"k": True}, {"k": False}, 1.0, 0.0, False, 0]
 
 _ENV: dict[str, Any] = {}
 
@@ -222,6 +222,14 @@ def array_laws(arr: list[Any], out: V) -> bool:
                 if name != "sort_natural" and rp[0] == "ok" and r0[0] == "ok" and len(set(map(repr, arr))) == len(arr):
                     # distinct elements with a total order: the result is unique
                     if all(isinstance(x, int) and not isinstance(x, bool) for x in arr) and not same(rp[1], r0[1]):
+                        out.append((f"{name}-result-depends-on-element-order", [arr, list(p)], r0[1], rp[1]))
+                        break
+                    # sort_numeric: numbers by value, everything that is not a number after them. With numerically
+                    # distinct numbers and at most one other element there is exactly one such order
+                    nums_ = [x for x in arr if isinstance(x, (int, float)) and not isinstance(x, bool)]
+                    others_ = [x for x in arr if not (isinstance(x, (int, float)) and not isinstance(x, bool))]
+                    plain_ = all(x is None or isinstance(x, bool) or (isinstance(x, str) and not any(ch.isdigit() for ch in x)) for x in others_)  # (no digits in their string form)
+                    if name == "sort_numeric" and len(others_) <= 1 and plain_ and len(set(nums_)) == len(nums_) and not same(rp[1], r0[1]):
                         out.append((f"{name}-result-depends-on-element-order", [arr, list(p)], r0[1], rp[1]))
                         break
     # keyed laws
